@@ -393,7 +393,10 @@ fn cx_trait(ctx: &Ctx, r: &mut Report) {
     let supers = ["", ": Sized", ": Send + Sync"];
     let wheres = ["", "where Self: 'static"];
     // method lists: (decl, name, arg names, async, receiver text)
-    let methods: [&[(&str, &str, &[&str], bool)]; 6] = [
+    let methods: [&[(&str, &str, &[&str], bool)]; 9] = [
+        &[("fn f<V: Into<u8>>(&self, v: V, w: impl Into<u8>) -> u8;", "f", &["v", "w"], false)],
+        &[("#[cfg(all())] async fn a(&self, s: &mut String);", "a", &["s"], true), ("fn b(&self, cb: &dyn Fn(u8) -> u8) -> u8;", "b", &["cb"], false)],
+        &[("unsafe fn u(&self, p: *const u8) -> u8;", "u", &["p"], false), ("extern \"C\" fn e(&self);", "e", &[], false), ("fn r#type(&self, r#fn: u8);", "r#type", &["r#fn"], false)],
         &[("fn f<'x>(&'x self, s: &'x str) -> &'x str;", "f", &["s"], false), ("async fn g<'y>(&'y self) -> &'y str;", "g", &[], true)],
         &[("fn f(&self);", "f", &[], false)],
         &[("fn f(&self, a: i32, b: i32) -> i32;", "f", &["a", "b"], false), ("fn g(&self, a: i32, b: i32) -> i32;", "g", &["a", "b"], false)],
